@@ -24,28 +24,28 @@ func (s *Server) References(ctx context.Context, params *protocol.ReferenceParam
 		return nil, nil
 	}
 
-	resolved := s.getWorkspaceResolved(params.TextDocument.URI)
+	resolved, primaryPath := s.resolvedForDocument(params.TextDocument.URI)
 	currentPath := uriToPath(params.TextDocument.URI)
 
-	return findReferences(target, resolved, currentPath, journal, params.Context.IncludeDeclaration), nil
+	return findReferences(target, resolved, primaryPath, currentPath, journal, params.Context.IncludeDeclaration), nil
 }
 
-func findReferences(target *definitionTarget, resolved *include.ResolvedJournal, currentPath string, currentJournal *ast.Journal, includeDeclaration bool) []protocol.Location {
+func findReferences(target *definitionTarget, resolved *include.ResolvedJournal, primaryPath, currentPath string, currentJournal *ast.Journal, includeDeclaration bool) []protocol.Location {
 	switch target.context {
 	case DefContextAccount:
-		return findAccountReferences(target.name, resolved, currentPath, currentJournal, includeDeclaration)
+		return findAccountReferences(target.name, resolved, primaryPath, currentPath, currentJournal, includeDeclaration)
 	case DefContextCommodity:
-		return findCommodityReferences(target.name, resolved, currentPath, currentJournal, includeDeclaration)
+		return findCommodityReferences(target.name, resolved, primaryPath, currentPath, currentJournal, includeDeclaration)
 	case DefContextPayee:
 		// Payees don't have declarations (no directive), so includeDeclaration is ignored
-		return findPayeeReferences(target.name, resolved, currentPath, currentJournal)
+		return findPayeeReferences(target.name, resolved, primaryPath, currentPath, currentJournal)
 	default:
 		return nil
 	}
 }
 
-func findAccountReferences(name string, resolved *include.ResolvedJournal, currentPath string, currentJournal *ast.Journal, includeDeclaration bool) []protocol.Location {
-	journals := allJournalsWithPaths(resolved, currentPath, currentJournal)
+func findAccountReferences(name string, resolved *include.ResolvedJournal, primaryPath, currentPath string, currentJournal *ast.Journal, includeDeclaration bool) []protocol.Location {
+	journals := allJournalsWithPaths(resolved, primaryPath, currentPath, currentJournal)
 	var locations []protocol.Location
 
 	for _, filePath := range sortedJournalPaths(journals) {
@@ -81,8 +81,8 @@ func findAccountReferences(name string, resolved *include.ResolvedJournal, curre
 	return sortAndDedup(locations)
 }
 
-func findCommodityReferences(symbol string, resolved *include.ResolvedJournal, currentPath string, currentJournal *ast.Journal, includeDeclaration bool) []protocol.Location {
-	journals := allJournalsWithPaths(resolved, currentPath, currentJournal)
+func findCommodityReferences(symbol string, resolved *include.ResolvedJournal, primaryPath, currentPath string, currentJournal *ast.Journal, includeDeclaration bool) []protocol.Location {
+	journals := allJournalsWithPaths(resolved, primaryPath, currentPath, currentJournal)
 	var locations []protocol.Location
 
 	for _, filePath := range sortedJournalPaths(journals) {
@@ -118,8 +118,8 @@ func findCommodityReferences(symbol string, resolved *include.ResolvedJournal, c
 	return sortAndDedup(locations)
 }
 
-func findPayeeReferences(payee string, resolved *include.ResolvedJournal, currentPath string, currentJournal *ast.Journal) []protocol.Location {
-	journals := allJournalsWithPaths(resolved, currentPath, currentJournal)
+func findPayeeReferences(payee string, resolved *include.ResolvedJournal, primaryPath, currentPath string, currentJournal *ast.Journal) []protocol.Location {
+	journals := allJournalsWithPaths(resolved, primaryPath, currentPath, currentJournal)
 	var locations []protocol.Location
 
 	for _, filePath := range sortedJournalPaths(journals) {
